@@ -182,6 +182,10 @@ def variant_edits(root):
           '            def expand_link_args(largs: Sequence[str]) -> tuple[str, ...]:\n                self.expand_stack.append("[[link]]")\n'
           '                res = tuple(expand_recurse(x, parent, expand_all) for x in largs)\n                self.expand_stack.pop()\n                return res\n\n'
           '            # Main code of expand_recurse()\n')
+    # a sound fast path in front of the includable-part pipeline (every step pattern needs a "<")
+    _edit(root, PKG + "/core.py",
+          '        # Remove all comments\n        text = re.sub(r"(?s)<!--.*?-->", "", text)\n',
+          '        if "<" not in text:\n            return text\n        # Remove all comments\n        text = re.sub(r"(?s)<!--.*?-->", "", text)\n')
     # comments, blank lines and a docstring added (line numbers shift)
     _edit(root, PKG + "/parser.py", "def _parser_pop(ctx: \"Wtp\", warn_unclosed: bool) -> None:\n", "\n\n# moved\n\ndef _parser_pop(ctx: \"Wtp\", warn_unclosed: bool) -> None:\n")
     # Lua locals renamed
